@@ -82,7 +82,10 @@ def lock_discipline(b):
     return "other", line
 
 
-def conc_profile(o, race=False):
+def conc_profile(o, race=False, monitors_only=False):
+    """monitors_only: nothing of the model's output is compared (view = None everywhere): the statement monitors on the
+    implementation - which judge the real server by sequential runs of the real server, not by the model - decide alone.
+    Used when the tree takes its handler-level lock where the model does not know it, or a trace disagrees."""
     b = sched_binary(o, race)
     if b is None or not Built.driver(o, "concdriver"):
         return None
@@ -94,9 +97,11 @@ def conc_profile(o, race=False):
         o.violation("the scheduler probe failed: %s" % probe, {"kind": "machinery", "output": probe}, no_input=True)
         return None
     o.notes["lock_discipline"] = {"detected": disc, "probe": probe}
-    if disc == "other":
+    if disc == "other" and not Built.cache.get(("disc_reported", race)):
+        Built.cache[("disc_reported", race)] = True
         o.violation("the tree under test takes a handler-level lock in a place the model does not know: %s" % probe,
                     {"kind": "obligation", "detail": "lock discipline of the tree is neither none nor rw (Conc.Disc)", "probe": probe}, no_input=True)
+    if disc == "other":
         disc = "rw"
 
     def run(env):
@@ -107,6 +112,8 @@ def conc_profile(o, race=False):
         if env.get("VERIF_MODE") == "conc":
             conc_profile.last_output = out   # the generator's statistics (replays during shrinking do not overwrite them)
         return ok, out
+    if monitors_only:
+        return Profile("sched", run, "concdriver", driver_args=(disc,), view=lambda op, ans: None)
     return Profile("sched", run, "concdriver", driver_args=(disc,))
 
 
@@ -157,13 +164,13 @@ def forced(o, prof, store, profile, n, cap, label):
     return res
 
 
-def stress(o, race, store, rounds, label):
+def stress(o, race, store, rounds, label, profile=""):
     b = sched_binary(o, race)
     if b is None:
         return
     d = os.path.join(W, "stress_%s_%d" % (label, os.getpid()))
     os.makedirs(d, exist_ok=True)
-    env = {"VERIF_MODE": "conc", "VERIF_CONC": "stress", "VERIF_SEED": o.seed, "VERIF_N": rounds, "VERIF_STORE": store,
+    env = {"VERIF_MODE": "conc", "VERIF_CONC": "stress", "VERIF_SEED": o.seed, "VERIF_N": rounds, "VERIF_STORE": store, "VERIF_PROFILE": profile,
            "VERIF_OPS": os.path.join(d, "ops"), "VERIF_IMPL": os.path.join(d, "impl"), "VERIF_MON": os.path.join(d, "mon")}
     ok, out = _run_bin(b, env)
     st = _stats(out)
@@ -173,7 +180,9 @@ def stress(o, race, store, rounds, label):
     o.cov["evaluations"] += st.get("rounds", 0)
     races = "DATA RACE" in out
     if not ok or races:
-        o.violation("free-running stress (%s) failed%s: %s" % (label, " with a data race report" if races else "", out[-1500:]),
+        at = out.find("WARNING: DATA RACE") if races else -1
+        o.violation("free-running stress (%s) failed%s: %s" % (label, " with a data race report" if races else "",
+                                                                 out[at:at + 1800] if at >= 0 else out[-1500:]),
                     {"kind": "stress", "label": label, "output": out[-6000:]}, no_input=not races)
         return
     hits = [m for m in mon if m[1].startswith("C11.")]
@@ -191,18 +200,40 @@ def check_C11(o, tier):
     prof = conc_profile(o)
     if prof is None:
         return
-    check_corpus(o, prof, "C11", C11Monitors())
     thorough = tier == "thorough"
-    # all schedules of the curated cases (bounded per case), both stores
-    forced(o, prof, "mem", "curated", 0, 4000 if thorough else 300, "sched-curated-mem")
-    forced(o, prof, "dir", "curated", 0, 400 if thorough else 20, "sched-curated-dir")
-    # random cases, random schedules
-    forced(o, prof, "mem", "random", 12000 if thorough else 2500, 60, "sched-random-mem")
-    forced(o, prof, "dir", "random", 1500 if thorough else 200, 60, "sched-random-dir")
+    unknown_lock = o.notes.get("lock_discipline", {}).get("detected") == "other"
+    mismatch = unknown_lock
+    if not unknown_lock:
+        n0 = len(o.violations)
+        check_corpus(o, prof, "C11", C11Monitors())
+        mismatch = any("disagree" in v[0] for v in o.violations[n0:])
+        # all schedules of the curated cases (bounded per case), both stores; random cases, random schedules
+        for store, profile, n, cap, label in (("mem", "curated", 0, 4000 if thorough else 300, "sched-curated-mem"),
+                                              ("dir", "curated", 0, 400 if thorough else 20, "sched-curated-dir"),
+                                              ("mem", "random", 12000 if thorough else 2500, 60, "sched-random-mem"),
+                                              ("dir", "random", 1500 if thorough else 200, 60, "sched-random-dir")):
+            res = forced(o, prof, store, profile, n, cap, label)
+            mismatch = mismatch or res["diffs"] > 0
     prof.cleanup()
+    if mismatch:
+        # the model does not describe this tree (lock taken elsewhere, or a store-action trace differs): that alarm has no
+        # failing input.  The monitors do not depend on the model: enumerate on the implementation alone and report the
+        # schedules whose outcome no sequential order of the real server explains, each with its (shrunk) replay
+        mp = conc_profile(o, monitors_only=True)
+        if mp is not None:
+            if unknown_lock:
+                check_corpus(o, mp, "C11", C11Monitors())
+            forced(o, mp, "mem", "curated", 0, 4000 if thorough else 800, "sched-monitors-curated-mem")
+            if unknown_lock:
+                forced(o, mp, "dir", "curated", 0, 400 if thorough else 20, "sched-monitors-curated-dir")
+                forced(o, mp, "mem", "random", 12000 if thorough else 2000, 60, "sched-monitors-random-mem")
+            mp.cleanup()
     # free running
     stress(o, False, "mem", 3000 if thorough else 150, "stress-mem")
     stress(o, False, "dir", 300 if thorough else 25, "stress-dir")
+    # under the race detector: tag moves on one digest against reads of the tag and the listing (what a handler does with
+    # the index between two store actions is below the granularity of the model; C13 owns it, this is a cheap tripwire)
+    stress(o, True, "mem", 1500 if thorough else 250, "stress-tagmoves-race", profile="tagrace")
     if thorough:
         stress(o, True, "mem", 1500, "stress-mem-race")
         stress(o, True, "dir", 150, "stress-dir-race")
